@@ -929,11 +929,13 @@ static ZSTDMT_jobDescription* ZSTDMT_createJobsTable(U32* nbJobsPtr, ZSTD_custom
 static size_t ZSTDMT_expandJobsTable (ZSTDMT_CCtx* mtctx, U32 nbWorkers) {
     U32 nbJobs = nbWorkers + 2;
     if (nbJobs > mtctx->jobIDMask+1) {  /* need more job capacity */
-        ZSTDMT_freeJobsTable(mtctx->jobs, mtctx->jobIDMask+1, mtctx->cMem);
-        mtctx->jobIDMask = 0;
-        mtctx->jobs = ZSTDMT_createJobsTable(&nbJobs, mtctx->cMem);
-        if (mtctx->jobs==NULL) return ERROR(memory_allocation);
+        /* create the new table first : on failure the existing one is left untouched,
+         * so that the context remains usable (a NULL table would be dereferenced by the next frame) */
+        ZSTDMT_jobDescription* const newJobs = ZSTDMT_createJobsTable(&nbJobs, mtctx->cMem);
+        if (newJobs==NULL) return ERROR(memory_allocation);
         assert((nbJobs != 0) && ((nbJobs & (nbJobs - 1)) == 0));  /* ensure nbJobs is a power of 2 */
+        ZSTDMT_freeJobsTable(mtctx->jobs, mtctx->jobIDMask+1, mtctx->cMem);
+        mtctx->jobs = newJobs;
         mtctx->jobIDMask = nbJobs - 1;
     }
     return 0;
